@@ -337,7 +337,7 @@ func TestVerif_C05(t *testing.T) {
 				lens = append(lens, L)
 			}
 			lens = append(lens, 16384, 16385, 16639, 16640, 4095, 4096, 4097)
-			for i := 0; i < r.Pick(20, 200); i++ {
+			for i := 0; i < r.Pick(20, 1000); i++ {
 				lens = append(lens, lo+rng.IntN(16640))
 			}
 			if segName == "one" {
@@ -391,7 +391,7 @@ func TestVerif_C05(t *testing.T) {
 				continue
 			}
 			r.Case(id, nil)
-			per := r.Pick(200, 1000)
+			per := r.Pick(200, 4000)
 			segs := []vk.SegFunc{vk.SegAll(), vk.SegRandom(rand.New(rand.NewPCG(9, 9))), vk.SegSmall(rand.New(rand.NewPCG(8, 8)))}
 			k, d := c05Concurrent(t, r, kind, wn, per, segs[i%3], []int{16, 4, 2}[i])
 			r.Count("evaluations", int64(wn*per))
